@@ -155,3 +155,52 @@ package store
 //@   havoc $Complete $CreateErr $LinkGone $CacheDropped $FdOpen
 //@   callpre store.remove: pathKind($arg0) == 1 || pathKind($arg0) == 2
 //@   ensures err == nil ==> $Complete
+
+// ---------------------------------------------------------------------------------------------
+// C06 / C05: the getter over the local store. Every method opens the block of the header's own height,
+// reports a missing block as shwap.ErrNotFound (not as success, not as corruption), asks the accessor for
+// exactly the coordinates / row / namespace / range it was asked for, and hands back nothing next to an
+// error. GetSamples answers positionally: sample i is the accessor's sample at indices[i].
+//@ func (*Getter).GetSamples
+//@   property C06 C05
+//@   noframe
+//@   requires hdr != nil
+//@   callpre Store).GetByHeight: $arg2 == hdr.Height()
+//@   callpre Accessor).Sample: $arg2 == indices[rangeindex]
+//@   ensures err != nil ==> len(result0) == 0
+//@   ensures err == nil ==> len(result0) == len(indices)
+//@   loop 1: invariant -1 <= rangeindex && rangeindex < len(indices) && len(smpls) == len(indices)
+//@   loop 1: backedge smpls[rangeindex] == smpl
+
+//@ func (*Getter).GetRow
+//@   property C06 C05
+//@   noframe
+//@   requires h != nil
+//@   callpre Store).GetByHeight: $arg2 == h.Height()
+//@   callpre Accessor).AxisHalf: $arg2 == rsmt2d.Row && $arg3 == rowIdx
+//@   callpre AxisHalf).ToRow: $arg0 == axisHalf
+//@   ensures err != nil ==> result0.shares == nil
+
+//@ func (*Getter).GetNamespaceData
+//@   property C06 C05
+//@   noframe
+//@   requires h != nil
+//@   callpre Store).GetByHeight: $arg2 == h.Height()
+//@   callpre eds.NamespaceData: $arg1 == acc && $arg2 == ns
+//@   ensures err != nil ==> result0 == nil
+
+//@ func (*Getter).GetRangeNamespaceData
+//@   property C06 C05
+//@   noframe
+//@   requires h != nil
+//@   callpre Store).GetByHeight: $arg2 == h.Height()
+//@   callpre Accessor).RangeNamespaceData: $arg2 == from && $arg3 == to
+//@   ensures err != nil ==> result0.Shares == nil && result0.FirstIncompleteRowProof == nil && result0.LastIncompleteRowProof == nil
+
+//@ func (*Getter).GetEDS
+//@   property C06 C05
+//@   noframe
+//@   requires h != nil && h.DAH != nil
+//@   callpre Store).GetByHeight: $arg2 == h.Height()
+//@   callpre eds.Rsmt2DFromShares: $arg0 == shares && $arg1 == len(h.DAH.RowRoots) / 2
+//@   ensures err != nil ==> result0 == nil
